@@ -95,6 +95,7 @@ def _kf_arange(solver_name, cls, t, t0, t1, dt):
 # cases
 # ---------------------------------------------------------------------------------------------
 EPS_T = float(np.finfo(float).eps)
+KF_ROD_PICKLE = "Solution.save/rod-classes-pickled-by-value"
 DYNAMIC = ["Moreau", "Rattle", "BackwardEuler", "DualStormerVerlet:LU", "DualStormerVerlet:MINRES", "DualStormerVerlet:MINRES (matrix free)",
            "ScipyIVP", "ScipyDAE"]
 SYSTEMS_SMOOTH = ["free_pm", "free_rb", "pendulum_pm", "pendulum_rb_spherical", "pendulum_rb_revolute", "spring_compliance"]
@@ -122,6 +123,8 @@ def cases(tier, seed):
     out = []
     for s, t0, t1, dt in DIRECTED:
         out.append({"solver": s, "system": "free_pm", "t0": t0, "t1": t1, "dt": dt, "grid": "directed"})
+    for s_ in ("Moreau", "BackwardEuler", "Rattle"):
+        out.append({"solver": s_, "system": "rod_free", "t0": "0", "t1": "0.003", "dt": "0.001", "grid": "multiple"})
     # long grids (thousands of steps) on the cheapest system: the end rule and the step must hold at step 5000 as at step 5
     longs = [("Moreau", "0", "0.001"), ("Rattle", "0.3", "0.001"), ("BackwardEuler", "-0.5", "0.001"), ("DualStormerVerlet:LU", "10", "0.0001"),
              ("ScipyIVP", "0", "0.0001"), ("ScipyDAE", "2.5", "0.001"), ("Moreau", "10", "0.0001"), ("Rattle", "-1.2", "0.0007")]
@@ -244,6 +247,16 @@ def build_system(rng, kind, t0, t1=None):
         else:
             j = Revolute(anchor, rb, int(rng.integers(3)), r_OJ0=rJ, A_IJ0=quat_to_mat(rng.normal(size=4)), name="joint")
         S.add(anchor, rb, j, Force(m * g, rb, name="gravity"))
+    elif kind == "rod_free":
+        # a short free-flying Cosserat rod (rod classes are made by a factory at run time)
+        from cardillo.rods.cosseratRod import make_CosseratRod
+        from cardillo.rods import CircularCrossSection, Simo1986, CrossSectionInertias
+        Rod = make_CosseratRod(interpolation=["Quaternion", "SE3", "R12"][int(rng.integers(3))], mixed=bool(rng.random() < 0.5), polynomial_degree=1)
+        Q = Rod.straight_configuration(1, 1.0, r_OP0=rng.normal(size=3))
+        rod = Rod(CircularCrossSection(0.05), Simo1986(np.array([50.0, 10, 10]), np.array([5.0, 20, 20])), 1, Q=Q, q0=Q,
+                  cross_section_inertias=CrossSectionInertias(A_rho0=1.0, B_I_rho0=np.diag([0.02, 0.01, 0.01])), name="rod")
+        S.add(rod)
+        d["contains_rod"] = True
     elif kind == "spring_compliance":
         anchor = Frame(r_OP=rng.normal(size=3), name="anchor")
         m = float(loguniform(rng, 0.3, 3))
@@ -454,7 +467,8 @@ def check_contract(ctx, sol, system, solver_name, cls, t0, t1, dt, truncated, de
                 sol.save(path)
                 back = load_solution(path)
         except Exception as e:
-            ctx.violation("Solution.save/load_solution", "saving or loading the solution raises", {**det, "error": f"{type(e).__name__}: {e}"[:300]})
+            ctx.violation("Solution.save/load_solution", "saving or loading the solution raises", {**det, "error": f"{type(e).__name__}: {e}"[:300]},
+                          key=KF_ROD_PICKLE if (det.get("contains_rod") and isinstance(e, TypeError) and "callable" in str(e)) else None)
             back = None
         if back is not None:
             a, b = {"t": sol.t, **fields}, {"t": getattr(back, "t", None), **_fields(back)}
